@@ -51,6 +51,18 @@ def run(ctx):
     index_cache_follows_inputs(prog, d6)
     d7 = ctx.rule('D7', 'emptiness of a phase group is decided over every label of the group', floor=3)
     all_quantifier(ctx, d7)
+    # reduce_phases ("remove empty phases") must keep every NON-empty label: the per-state summary g / l / s of the `phase` property
+    # folds 'l' and 'L' (and 's' and 'S') together, so it may only be used when at most one label survives
+    rp = prog.method('MultiStream', 'reduce_phases', rel=MS)
+    per_label = [n for n in ast.walk(rp.node) if isinstance(n, (ast.ListComp, ast.GeneratorExp, ast.For))
+                 and any(isinstance(x, ast.Call) and isinstance(x.func, ast.Attribute) and x.func.attr in ('any', 'isempty', 'sum') for x in ast.walk(n))
+                 and ('self._imol' in src(n) or 'self.imol' in src(n) or 'self.phases' in src(n))]
+    keeps = [n for n in walk_no_nested(rp.node) if isinstance(n, ast.Assign) and any(src(t) == 'self.phases' for t in n.targets)]
+    if per_label and keeps:
+        d7.ok('MultiStream.reduce_phases', 'the surviving phases are the labels whose own row is non-empty', rp, keeps[0])
+    else:
+        d7.fail('MultiStream.reduce_phases', 'collapses-by-group', 'reduce_phases decides through the per-state summary (g, l, s) only: with material in both \'l\' and \'L\' '
+                'the two liquids are merged into one phase', rp, rp.node)
 
 
 def _views_refreshed(x):
@@ -211,16 +223,29 @@ def snapshot(ctx, d3):
         d3.fail('Stream.get_data', 'args', 'get_data does not snapshot (imol, thermal condition, phases)', g, g.node)
     s = prog.method('Stream', 'set_data', rel=ST)
     ps, _ = run_paths(s.node)
-    p = [q for q in ps if not q.raised][0]
-    ev = p.events
     sd = s.params[1]
-    ph = [e for e in ev if e.kind == 'store' and e.target == 'self.phases' and e.value.pretty() == '%s._phases' % sd]
-    fl = [e for e in ev if e.kind == 'call' and e.target == 'self._imol.copy_like' and e.value[0].pretty() == '%s._imol' % sd]
-    tc = [e for e in ev if e.kind == 'call' and e.target == 'self._thermal_condition.copy_like' and e.value[0].pretty() == sd]
-    if ph and fl and tc and ev.index(ph[0]) < ev.index(fl[0]):
-        d3.ok('Stream.set_data', 'phases restored first, then flows, then T and P', s)
+    good = True
+    normal = [q for q in ps if not q.raised]
+    for p in normal:
+        ev = p.events
+        ph = [e for e in ev if e.kind == 'store' and e.target == 'self.phases' and e.value.pretty() == '%s._phases' % sd]
+        # the flows come from the snapshot's indexer: the indexer itself, or -- for the snapshot of a multi-phase stream that held one phase --
+        # its reduction to that phase
+        fl = [e for e in ev if e.kind == 'call' and e.target == 'self._imol.copy_like' and e.value and e.value[0].pretty().startswith('%s._imol' % sd)]
+        tc = [e for e in ev if e.kind == 'call' and e.target == 'self._thermal_condition.copy_like' and e.value[0].pretty() == sd]
+        if not (ph and fl and tc and ev.index(ph[0]) < ev.index(fl[0])):
+            good = False
+    if good and normal:
+        d3.ok('Stream.set_data', 'phases restored first, then flows, then T and P (all %d normal paths)' % len(normal), s)
     else:
         d3.fail('Stream.set_data', 'restore-order', 'set_data does not restore phases, flows and thermal condition (phases first)', s, s.node)
+    # kind agreement: after `self.phases = <one phase>` the stream is single-phase; a multi-phase snapshot must then be reduced to that phase
+    red = [n for n in walk_no_nested(s.node) if isinstance(n, ast.Call) and isinstance(n.func, ast.Attribute) and n.func.attr in ('to_chemical_indexer', 'get_phase')]
+    if red:
+        d3.ok('Stream.set_data', 'a one-phase snapshot of a multi-phase stream is reduced to that phase before it is copied into the (now single-phase) stream', s, red[0])
+    else:
+        d3.fail('Stream.set_data', 'one-phase-snapshot', 'restoring the snapshot of a multi-phase stream that held a single phase copies a 2-d indexer into a single-phase '
+                'stream (AttributeError): get_data/set_data and pickling do not round-trip for such streams', s, s.node)
     # ThermalCondition.copy_like reads _T/_P (StreamData provides them)
     tcl = prog.method('ThermalCondition', 'copy_like')
     t = ' '.join(ast.unparse(tcl.node).split())
